@@ -19,20 +19,19 @@
    Stall is accepted only if the abstract channel is open and empty and the parked operations have not taken
    effect: otherwise a receiver sleeps although a message (or the close) is there for it = LOST WAKEUP.
 
-   Mode (cfg) selects the reading; everything but "strict" is used only to CLASSIFY a rejected segment:
+   The Reset event may carry "mode" (default "strict"; added by checks/mpmc.py when it re-judges a rejected
+   segment); everything but "strict" is used only to CLASSIFY a rejected segment:
      strict   the object of Mpmc.tla                      wsend / wrecv / weak   the weak readings of Mpmc.tla
      nostall  weak, and Stall events are not judged (a segment only this mode accepts lost a wake-up) *)
 EXTENDS Mpmc, TLC, Json, IOUtils
-CONSTANT Mode
 Rec == ndJsonDeserialize(IOEnv.TRACE)
 N == Len(Rec)
 TIds == 0..8
 SegStarts == {i \in 1..N : Rec[i].e = "Reset"}
-WSend == Mode \in {"wsend", "weak", "nostall"}
-WRecv == Mode \in {"wrecv", "weak", "nostall"}
-
-VARIABLES l, S, pend, sg, mode
-vars == <<l, S, pend, sg, mode>>
+VARIABLES l, S, pend, sg, mode, md
+vars == <<l, S, pend, sg, mode, md>>
+WSend == md \in {"wsend", "weak", "nostall"}
+WRecv == md \in {"wrecv", "weak", "nostall"}
 NoOp == [op |-> "", m |-> 0, set |-> {}]
 Idle == [s |-> StIdle, o |-> NoOp]
 AllIdle == \A t \in TIds : pend[t].s.st = "idle"
@@ -40,7 +39,7 @@ Ev(e) == l <= N /\ Rec[l].e = e
 Mark == sg = 0 \/ TLCSet(2, TLCGet(2) \cup {sg})
 SeqSet(s) == {s[i] : i \in 1..Len(s)}
 
-Init == /\ l = 1 /\ S = Chan0 /\ sg = 0 /\ mode = "skip"
+Init == /\ l = 1 /\ S = Chan0 /\ sg = 0 /\ mode = "skip" /\ md = "strict"
         /\ pend = [t \in TIds |-> Idle]
         /\ TLCSet(2, {})
 Reset == /\ Ev("Reset")
@@ -49,21 +48,22 @@ Reset == /\ Ev("Reset")
          /\ l' = l + 1 /\ sg' = l /\ S' = Chan0
          /\ pend' = [t \in TIds |-> Idle]
          /\ mode' \in {"ok", "skip"}
+         /\ md' = IF mode' = "ok" /\ "mode" \in DOMAIN Rec[l] THEN Rec[l].mode ELSE "strict"
 SkipEv == /\ mode = "skip" /\ l <= N /\ Rec[l].e # "Reset"
-          /\ l' = l + 1 /\ UNCHANGED <<S, pend, sg, mode>>
+          /\ l' = l + 1 /\ UNCHANGED <<S, pend, sg, mode, md>>
 Other == /\ mode = "ok" /\ l <= N /\ Rec[l].e \in {"Obs", "End"}
-         /\ l' = l + 1 /\ UNCHANGED <<S, pend, sg, mode>>
+         /\ l' = l + 1 /\ UNCHANGED <<S, pend, sg, mode, md>>
 Call == /\ Ev("Call") /\ mode = "ok"
         /\ LET r == Rec[l] IN
            /\ r.t \in TIds /\ pend[r.t].s.st = "idle"
            /\ r.op \in {"send", "try", "recv", "close", "flush", "len", "notifyw"}
            /\ pend' = [pend EXCEPT ![r.t] = [s |-> StInv, o |-> [op |-> r.op, m |-> r.m, set |-> SeqSet(r.set)]]]
-        /\ l' = l + 1 /\ UNCHANGED <<S, sg, mode>>
+        /\ l' = l + 1 /\ UNCHANGED <<S, sg, mode, md>>
 Lin(t) == /\ mode = "ok" /\ pend[t].s.st \in {"inv", "mid"}
           /\ \E x \in LinSucc(S, pend[t].s, pend[t].o, WSend, WRecv) :
                /\ S' = x.S
                /\ pend' = [pend EXCEPT ![t].s = x.s]
-          /\ UNCHANGED <<l, sg, mode>>
+          /\ UNCHANGED <<l, sg, mode, md>>
 Ret == /\ Ev("Ret") /\ mode = "ok"
        /\ LET r == Rec[l] IN
           /\ r.t \in TIds
@@ -71,19 +71,19 @@ Ret == /\ Ev("Ret") /\ mode = "ok"
              THEN pend[r.t].o.op = "recv" /\ pend[r.t].s.st \in {"inv", "mid"}         \* a dropped recv took nothing
              ELSE pend[r.t].s.st = "done" /\ pend[r.t].s.r = Res(r.res.k, r.res.m)
           /\ pend' = [pend EXCEPT ![r.t] = Idle]
-       /\ l' = l + 1 /\ UNCHANGED <<S, sg, mode>>
+       /\ l' = l + 1 /\ UNCHANGED <<S, sg, mode, md>>
 Stall == /\ Ev("Stall") /\ mode = "ok"
          /\ LET b == SeqSet(Rec[l].blocked) IN
-            \/ Mode = "nostall"
+            \/ md = "nostall"
             \/ /\ \A t \in TIds : IF t \in b THEN pend[t].o.op = "recv" /\ pend[t].s.st \in {"inv", "mid"}
                                             ELSE pend[t].s.st = "idle"
                /\ S.q = <<>> /\ ~S.closed
-         /\ l' = l + 1 /\ UNCHANGED <<S, pend, sg, mode>>
+         /\ l' = l + 1 /\ UNCHANGED <<S, pend, sg, mode, md>>
 Done == /\ l = N + 1
         /\ \/ mode = "skip"
            \/ mode = "ok" /\ AllIdle /\ Mark
         /\ PrintT(<<"CONSUMED", N>>)
-        /\ l' = l + 1 /\ S' = Chan0 /\ sg' = 0 /\ mode' = "skip" /\ pend' = [t \in TIds |-> Idle]
+        /\ l' = l + 1 /\ S' = Chan0 /\ sg' = 0 /\ mode' = "skip" /\ md' = "strict" /\ pend' = [t \in TIds |-> Idle]
 Next == Reset \/ SkipEv \/ Other \/ Call \/ Ret \/ Stall \/ Done \/ \E t \in TIds : Lin(t)
 Spec == Init /\ [][Next]_vars
 Rejected == SegStarts \ TLCGet(2)
